@@ -186,3 +186,7 @@ Proof.
   destruct r as [a|e]; [|reflexivity].
   destruct (filter (fun k => negb (mem_str k (lused (cl st)))) (akeys kw)); reflexivity.
 Qed.
+
+Lemma crequest_checked_pass p dagon ps o kw full :
+  run_precheck p o kw = Ok tt -> crequest_checked p dagon ps o kw full = crequest p dagon ps o kw full.
+Proof. unfold crequest_checked. now intros ->. Qed.
